@@ -54,6 +54,8 @@ type result struct {
 	ArrivedEvents   int64          `json:"pcap_arrived_events"`
 	KnownPcaps      int64          `json:"known_pcaps_at_world_end"`
 	ValidUploads2xx int64          `json:"valid_pcap_uploads_2xx"`
+	StreamDownloads int64          `json:"stream_downloads"`
+	StreamDown2xx   int64          `json:"stream_downloads_2xx"`
 	Notes           []string       `json:"notes"`
 	HarnessError    string         `json:"harness_error"`
 }
@@ -221,6 +223,8 @@ func Run(tier string) int {
 		tot.ArrivedEvents += r.ArrivedEvents
 		tot.KnownPcaps += r.KnownPcaps
 		tot.ValidUploads2xx += r.ValidUploads2xx
+		tot.StreamDownloads += r.StreamDownloads
+		tot.StreamDown2xx += r.StreamDown2xx
 		for k, v := range r.Outcomes {
 			tot.Outcomes[k] += v
 		}
@@ -287,6 +291,8 @@ func Run(tier string) int {
 	c["import_calls_observed"] = tot.ArrivedEvents
 	c["captures_known_after_import"] = tot.KnownPcaps
 	c["valid_capture_uploads_2xx"] = tot.ValidUploads2xx
+	c["stream_packet_downloads"] = tot.StreamDownloads
+	c["stream_packet_downloads_2xx"] = tot.StreamDown2xx
 	c["violation_cases_by_symptom"] = tot.ViolationCounts
 	c["shards"] = shards
 	c["exhaustive"] = tot.Complete
